@@ -54,15 +54,45 @@ def parse (s : List Char) : Option (List Char × List Char) :=
 
 /-! ### CompatibleSet -/
 
+/-- semver precedence of two prerelease identifiers (unequal): numeric below alphanumeric,
+    numerics by value (= by length, then text: no leading zeros), alphanumerics by ASCII text -/
+def ltChars : List Char → List Char → Bool
+  | [], [] => false
+  | [], _ :: _ => true
+  | _ :: _, [] => false
+  | a :: as, b :: bs => decide (a.toNat < b.toNat) || (decide (a.toNat = b.toNat) && ltChars as bs)
+
+def identLt (x y : List Char) : Bool :=
+  let nx := x.all isDigit
+  let ny := y.all isDigit
+  if nx != ny then nx
+  else if nx then decide (x.length < y.length) || (decide (x.length = y.length) && ltChars x y)
+  else ltChars x y
+
+/-- dot-separated prerelease identifiers, left to right; a longer list wins when all preceding
+    identifiers are equal -/
+def identsLt : List (List Char) → List (List Char) → Bool
+  | [], [] => false
+  | [], _ :: _ => true
+  | _ :: _, [] => false
+  | x :: xs, y :: ys => if x = y then identsLt xs ys else identLt x y
+
 structure Ver where
   major : Nat
   minor : Nat
   patch : Nat
+  pre : List (List Char) := []     -- prerelease identifiers; [] = a release (higher than any prerelease)
 deriving Repr, DecidableEq
 
+/-- `Version.Compare(a, b) < 0` as semver defines it -/
 def Ver.lt (a b : Ver) : Bool :=
   decide (a.major < b.major) || (decide (a.major = b.major) &&
-    (decide (a.minor < b.minor) || (decide (a.minor = b.minor) && decide (a.patch < b.patch))))
+    (decide (a.minor < b.minor) || (decide (a.minor = b.minor) &&
+      (decide (a.patch < b.patch) || (decide (a.patch = b.patch) &&
+        (match a.pre, b.pre with
+         | [], _ => false
+         | _ :: _, [] => true
+         | pa, pb => identsLt pa pb))))))
 
 structure H where
   t : String
